@@ -1435,6 +1435,15 @@ SPECS = [
                                                     implicit=["self.pixel_size_x", "self.pixel_size_y", "self.pixel_upper_left"])},
          owners=["C01", "C18"]),
     # ---- cell assignment in the other modules (C18, C07) -------------------------------------------
+    dict(name="proj_vectors1d", file="pyresample/geometry.py", func="_generate_1d_proj_vectors",
+         params=[("col", RAT), ("row", RAT), ("pixel_size_xy", tup(RAT, RAT)), ("offset_xy", tup(RAT, RAT))],
+         call_params={"arange(*col_range, **x_kwargs)": "col", "arange(*row_range, **y_kwargs)": "row"},
+         returns=tup(RAT, RAT), select=lambda fn: fn.body[1:],
+         guard=lambda fn: _same(fn.body[0], "x_kwargs, y_kwargs, arange = _get_vector_arange_args(dtype, chunks)"),
+         also_guard=[("AreaDefinition._get_proj_vectors",
+                      ["x, y = _generate_1d_proj_vectors((0, self.width), (0, self.height), (self.pixel_size_x, self.pixel_size_y), "
+                       "(self.pixel_upper_left[0], self.pixel_upper_left[1]), dtype, chunks=chunks)", "return (x, y)"])],
+         owners=["C01"]),
     dict(name="linesample", file="pyresample/grid.py", func="get_linesample", mode="fragment",
          params=[("source_x", RAT), ("source_y", RAT), ("source_area_def.pixel_offset_x", RAT), ("source_area_def.pixel_offset_y", RAT),
                  ("source_area_def.pixel_size_x", RAT), ("source_area_def.pixel_size_y", RAT)],
@@ -1670,6 +1679,11 @@ def generate(repo=REPO):
             fn = find_def(trees[spec["file"]], spec["func"])
             if "guard" in spec and not spec["guard"](fn):
                 raise TranslationError("the statements that precede the translated part changed (guard)")
+            for qual, wanted in spec.get("also_guard", []):
+                other = {ast.dump(st) for st in find_def(trees[spec["file"]], qual).body}
+                for g in wanted:
+                    if ast.dump(ast.parse(g).body[0]) not in other:
+                        raise TranslationError(f"expected statement `{g[:80]}` not found in {qual}")
             have = {ast.dump(st) for st in fn.body}
             for g in spec.get("post_guard", []):
                 if ast.dump(ast.parse(g).body[0]) not in have:
